@@ -60,7 +60,7 @@ STATES = [0, 1, 2, 3, 4, 5, 6, 7, 8, 9, 10, 11, 15]
 
 
 def plan(tier):
-    n = 45 if tier == "quick" else 7500
+    n = 80 if tier == "quick" else 7500
     return [(c, n) for c in CLASSES]
 
 
